@@ -151,6 +151,45 @@ def process_case(prop, case, stats, open_known):
     return judge(prop, case, discs, stats, open_known)
 
 
+def run_fuzz_stage(prop, stage, seed_value, stats, open_known, deadline):
+    """atheris / libFuzzer campaign in a subprocess; the oracle is inside the fuzz target"""
+    import shutil
+    import subprocess
+    import tempfile
+
+    try:
+        subprocess.run([sys.executable, "-c", "import atheris"], check=True, capture_output=True, env=dict(os.environ))
+    except subprocess.CalledProcessError:
+        stats.labels["fuzz-skipped:atheris-not-importable"] += 1
+        return
+    out = pathlib.Path(tempfile.mkdtemp(prefix="vffuzz-", dir=harness.scratch_root()))
+    corpus = out / "corpus"
+    corpus.mkdir()
+    for i, seed_input in enumerate(stage.get("corpus", [])):
+        (corpus / f"seed{i}").write_bytes(seed_input)
+    budget = int(max(5, min(stage["seconds"], deadline - time.monotonic())))
+    flags = [str(corpus), f"-seed={seed_value % (2**31) or 1}", f"-max_total_time={budget}", f"-max_len={stage.get('max_len', 512)}", "-print_final_stats=1"]
+    if stage.get("dict"):
+        (out / "dict.txt").write_text("\n".join(f'"{t}"' for t in stage["dict"]) + "\n")
+        flags.append(f"-dict={out / 'dict.txt'}")
+    r = subprocess.run([sys.executable, "-m", "vf.fuzz", prop.ID, stage["target"], str(out), *flags],
+                       capture_output=True, text=True, env=dict(os.environ), timeout=budget + 120)
+    count = {"n": 0, "judged": 0}
+    if (out / "count.json").exists():
+        count = json.loads((out / "count.json").read_text())
+    stats.evaluations += count["n"]
+    stats.labels[f"fuzz:{stage['target']}:executions"] += count["n"]
+    stats.labels[f"fuzz:{stage['target']}:judged"] += count["judged"]
+    if (out / "finding.json").exists():
+        finding = json.loads((out / "finding.json").read_text())
+        case = {"kind": "fuzz-input", "target": stage["target"], "data": finding["data"]}
+        account(prop, case, stats)
+        judge(prop, case, finding["discrepancies"], stats, open_known)
+    elif r.returncode not in (0,):
+        raise RuntimeError(f"fuzzer failed rc={r.returncode}: {r.stderr[-400:]}")
+    shutil.rmtree(out, ignore_errors=True)
+
+
 def run_machine_stage(prop, stage, seed_value, stats, open_known, deadline, examples):
     """Hypothesis stateful mode: the machine applies operations and reports every step through
     `on_history`; a failing step raises inside the machine so that the library shrinks the rule
@@ -257,6 +296,10 @@ def run_plan(pid, tier, seed_value, shard=(0, 1), budget_s=None):
             run_hyp_stage(prop, stage, seed_value * 1000 + index, stats, open_known, deadline, examples)
             if stats.exhaustive is None:
                 stats.exhaustive = False
+            stats.exhaustive = False
+        elif stage["kind"] == "fuzz":
+            if index == 0 or stage.get("shard_all"):
+                run_fuzz_stage(prop, stage, seed_value * 1000 + index, stats, open_known, deadline)
             stats.exhaustive = False
         elif stage["kind"] == "machine":
             examples = max(1, stage["examples"] // count)
